@@ -6,6 +6,13 @@
 //!                                   reply `ok:<paths>:<bool>`
 //!   tamper oc op leafs kind pos d   same, then one tampering before `verify`; reply `ok:<bool>`
 //!   verify oc op nc np paths        `verify` on an arbitrary triple; reply `ok:<bool>`
+//!   bgen oc op leafs / btamper …      the same as `gen` / `tamper` for LARGE structured old counts (2^k-1, 2^k-j, 2^a+2^b-1,
+//!                                   runs of ones up to bit 62: appending makes a carry ripple through high bits of the
+//!                                   leaf count).  Evaluated in a WATCHDOG CHILD process (`util::run_guarded`: wall-clock
+//!                                   timeout, address-space and CPU-time limit): a generator that loops forever or
+//!                                   allocates without bound is reported as `timeout`/`abort` + ORACLE-FAIL "does not
+//!                                   terminate".  Extra oracles: proof length = number of sibling digests demanded by
+//!                                   the specification; altering any single digest / dropping the last one is rejected.
 //!   hp l r / hp2 l r                validation of the model driver's fast hash_pair instance
 //!   free_check N                    model-only bounded test (free hash algebra); the harness runs the analogous
 //!                                   exhaustive loop over all (old, appended) with old+appended <= N on the real crate
@@ -138,6 +145,152 @@ pub mod spec {
             }
             res
         }
+    }
+}
+
+/// Sparse from-scratch reference for MMRs with a HUGE leaf count (used by the `bhist` ops of C05 / C11): a few
+/// "materialised" leafs are known by value, every maximal aligned block without a materialised leaf is an opaque
+/// digest.  `val(l, j)` = root of the aligned block `j` of `2^l` leafs; peaks and authentication paths are read off
+/// by position (`spec::peak_pos`), sharing no code with the crate's MMR index arithmetic.  The set of materialised
+/// leafs only grows by appends, so an opaque block never gets a materialised leaf later.
+pub mod sparse {
+    use super::spec::{locate, peak_pos};
+    use std::collections::{BTreeMap, HashMap};
+    use twenty_first::prelude::*;
+
+    pub struct Sparse {
+        pub n: u64,
+        pub leafs: BTreeMap<u64, Digest>,
+        pub opaque: HashMap<(u32, u64), Digest>,
+        /// generator side: state for fresh opaque digests; runner side: `None` (an unknown block counts as `missing`)
+        pub rnd: Option<u64>,
+        pub missing: u32,
+    }
+    impl Sparse {
+        pub fn has_leaf(&self, l: u32, j: u64) -> bool {
+            let lo = (j as u128) << l;
+            let hi = lo + (1u128 << l) - 1;
+            if lo > u64::MAX as u128 {
+                return false;
+            }
+            let hi = hi.min(u64::MAX as u128) as u64;
+            self.leafs.range(lo as u64..=hi).next().is_some()
+        }
+        pub fn val(&mut self, l: u32, j: u64) -> Digest {
+            if !self.has_leaf(l, j) {
+                if let Some(d) = self.opaque.get(&(l, j)) {
+                    return *d;
+                }
+                match self.rnd {
+                    Some(r) => {
+                        let mut g = crate::util::Rng(r);
+                        let d = g.digest_u();
+                        self.rnd = Some(g.0);
+                        self.opaque.insert((l, j), d);
+                        d
+                    }
+                    None => {
+                        self.missing += 1;
+                        Digest::default()
+                    }
+                }
+            } else if l == 0 {
+                self.leafs[&j]
+            } else {
+                let a = self.val(l - 1, 2 * j);
+                let b = self.val(l - 1, 2 * j + 1);
+                Tip5::hash_pair(a, b)
+            }
+        }
+        pub fn peaks(&mut self) -> Vec<Digest> {
+            peak_pos(self.n).into_iter().map(|(h, s)| self.val(h, s >> h)).collect()
+        }
+        /// authentication path of leaf `i < n`, lowest sibling first
+        pub fn path(&mut self, i: u64) -> Vec<Digest> {
+            let (h, _) = locate(self.n, i).unwrap();
+            (0..h).map(|l| self.val(l, (i >> l) ^ 1)).collect()
+        }
+        pub fn append(&mut self, d: Digest) {
+            self.leafs.insert(self.n, d);
+            self.n += 1;
+        }
+        /// generator side: `idxs` materialised with the given leafs, everything else opaque and random
+        pub fn random(seed: u64, n: u64, idxs: &[(u64, Digest)]) -> Sparse {
+            Sparse { n, leafs: idxs.iter().copied().filter(|x| x.0 < n).collect(), opaque: HashMap::new(), rnd: Some(seed), missing: 0 }
+        }
+        /// runner side: rebuilt from the op line alone -- the peaks of the accumulator and `(index, leaf, path)` of every
+        /// materialised leaf; `None` if these are not consistent with each other
+        pub fn from_known(n: u64, peaks: &[Digest], known: &[(u64, Digest, Vec<Digest>)]) -> Option<Sparse> {
+            if peaks.len() != n.count_ones() as usize {
+                return None;
+            }
+            let mut sp = Sparse { n, leafs: BTreeMap::new(), opaque: HashMap::new(), rnd: None, missing: 0 };
+            for (i, d, _) in known {
+                if *i >= n || sp.leafs.insert(*i, *d).is_some() {
+                    return None;
+                }
+            }
+            for (p, (h, s)) in peaks.iter().zip(peak_pos(n)) {
+                if !sp.has_leaf(h, s >> h) {
+                    sp.opaque.insert((h, s >> h), *p);
+                }
+            }
+            for (i, _, path) in known {
+                let (h, _) = locate(n, *i)?;
+                if path.len() != h as usize {
+                    return None;
+                }
+                for l in 0..h {
+                    let j = (i >> l) ^ 1;
+                    if !sp.has_leaf(l, j) {
+                        if let Some(o) = sp.opaque.insert((l, j), path[l as usize]) {
+                            if o != path[l as usize] {
+                                return None;
+                            }
+                        }
+                    }
+                }
+            }
+            if sp.peaks() != peaks || sp.missing > 0 {
+                return None;
+            }
+            for (i, _, path) in known {
+                if sp.path(*i) != *path {
+                    return None;
+                }
+            }
+            if sp.missing > 0 {
+                return None;
+            }
+            Some(sp)
+        }
+    }
+
+    /// indices worth tracking in an MMR with `n` leafs: last / first leaf, first and last leaf of peaks, sibling and
+    /// cousin pairs, random ones
+    pub fn pick_tracked(rng: &mut crate::util::Rng, n: u64, k: usize) -> Vec<u64> {
+        let pp = peak_pos(n);
+        let mut v: Vec<u64> = vec![];
+        let mut tries = 0;
+        while v.len() < k && tries < 100 && n > 0 {
+            tries += 1;
+            let c = match rng.below(8) {
+                0 => n - 1,
+                1 => 0,
+                2 | 3 => {
+                    let (h, s) = *rng.pick(&pp);
+                    if rng.coin(1, 2) { s } else { s + ((1u64 << h) - 1) }
+                }
+                4 if !v.is_empty() => *rng.pick(&v) ^ 1,
+                5 if !v.is_empty() => *rng.pick(&v) ^ (1 << rng.below(6)),
+                6 if !v.is_empty() => *rng.pick(&v) ^ (1 << rng.below(62)),
+                _ => rng.below(n),
+            };
+            if c < n && !v.contains(&c) {
+                v.push(c);
+            }
+        }
+        v
     }
 }
 use spec::*;
@@ -398,11 +551,114 @@ pub fn gen(rng: &mut Rng, thorough: bool, out: &mut Vec<String>) {
         let (op, np, paths) = (mk(rng, lo), mk(rng, ln), mk(rng, lp));
         out.push(verify_line("U", oc, &op, nc, &np, &paths));
     }
+    // (e) LARGE structured old counts: the real generator on `init(random peaks, count)`, carries through high bits
+    gen_big(rng, thorough, out);
     if thorough {
         out.push("mmrs free_check 64".into());
     } else {
         out.push("mmrs free_check 24".into());
     }
+}
+
+/// a large old leaf count and a number of appended leafs such that the append makes a carry ripple through high
+/// bits of the leaf count (classes 0..=5) or not (class 6: control); `old + appended < 2^63`
+pub fn carry_pair(rng: &mut Rng) -> (u64, usize) {
+    let small_m = |rng: &mut Rng| -> usize {
+        match rng.below(12) {
+            0 => 0,
+            1 => rng.range(6, 64) as usize,
+            _ => rng.range(1, 5) as usize,
+        }
+    };
+    let (oc, m) = match rng.below(8) {
+        0 => ((1u64 << rng.range(1, 62)) - 1, small_m(rng)),
+        1 => {
+            // 2^k - j: reach 2^k exactly, stay below, or go beyond
+            let k = rng.range(4, 63);
+            let j = rng.range(1, 6);
+            let m = match rng.below(4) {
+                0 => j - 1,
+                1 | 2 => j,
+                _ => j + rng.below(3),
+            };
+            ((1u64 << k) - j, if k == 63 { m.min(j - 1) } else { m } as usize)
+        }
+        2 => {
+            let a = rng.range(2, 62);
+            let b = rng.range(1, a - 1);
+            ((1u64 << a) + (1u64 << b) - 1, small_m(rng))
+        }
+        3 => {
+            // random high part, a zero at bit k, all ones below
+            let k = rng.range(8, 62);
+            let hi = if k >= 61 { 0 } else { (rng.next() >> (k + 2)) << (k + 1) };
+            ((hi | ((1u64 << k) - 1)) & ((1u64 << 62) - 1), small_m(rng))
+        }
+        4 | 5 => {
+            // random 62-bit count with a long run of ones at a random position; the bits below the run are 2^p - j
+            let len = rng.range(6, 50);
+            let p = rng.below(62 - len);
+            let j = rng.range(1, 5).min((1u64 << p).max(1));
+            let low = if p == 0 { 0 } else { (1u64 << p) - j.min(1u64 << p) };
+            let run = ((1u64 << len) - 1) << p;
+            let hi = if p + len + 1 >= 62 { 0 } else { (rng.next() >> (p + len + 2)) << (p + len + 1) };
+            let m = if p == 0 { small_m(rng).max(1) } else { (j + rng.below(2)) as usize };
+            ((hi | run | low) & ((1u64 << 62) - 1), m)
+        }
+        6 => ((1u64 << rng.range(31, 33)) - rng.range(1, 3), rng.range(1, 4) as usize), // right at bit 31 / 32 / 33
+        _ => (rng.next() >> 2, small_m(rng)),
+    };
+    (oc, m)
+}
+
+fn gen_big(rng: &mut Rng, thorough: bool, out: &mut Vec<String>) {
+    // the cost of one op on both sides is dominated by the proof length (a run of L ones climbs ~L^2/2 digests):
+    // the quick tier keeps most proofs below 600 digests and takes every sixth pair as it comes
+    let n = if thorough { 1_200 } else { 48 };
+    for i in 0..n {
+        let (mut oc, mut m) = carry_pair(rng);
+        if !thorough {
+            m = m.min(16);
+            let mut tries = 0;
+            while i % 6 != 0 && tries < 200 && spec_proof_len(oc, oc + m as u64).unwrap_or(0) > 600 {
+                (oc, m) = carry_pair(rng);
+                m = m.min(16);
+                tries += 1;
+            }
+        }
+        let op = digests(rng, oc.count_ones() as usize);
+        let leafs = digests(rng, m);
+        if i % 5 == 4 {
+            // tampering through the model as well
+            let kind = KINDS[(i / 5) % KINDS.len()];
+            let nc = oc + m as u64;
+            let bit = 1u64 << rng.below(62);
+            let pos = match kind {
+                "old_count" => *rng.pick(&[oc + 1, oc.saturating_sub(1), oc ^ bit, oc.rotate_left(1) >> 1]),
+                "new_count" => *rng.pick(&[nc + 1, nc.saturating_sub(1).max(oc), nc ^ bit, nc | (nc + 1)]),
+                _ => match rng.below(3) {
+                    0 => 0,
+                    1 => u32::MAX as u64,
+                    _ => rng.below(64),
+                },
+            };
+            let d = if rng.coin(1, 4) { Digest::default() } else { rng.digest_u() };
+            out.push(format!("mmrs btamper {} {} {} {} {} {}", oc, fmt_digests(&op), fmt_digests(&leafs), kind, pos, fmt_digest(&d)));
+        } else {
+            out.push(format!("mmrs bgen {} {} {}", oc, fmt_digests(&op), fmt_digests(&leafs)));
+        }
+    }
+}
+
+/// number of sibling digests the specification demands: every old peak climbs from its height to the height of the
+/// new peak that covers its first leaf
+fn spec_proof_len(oc: u64, nc: u64) -> Option<usize> {
+    let mut k = 0usize;
+    for (h, s) in peak_pos(oc) {
+        let (h2, _) = locate(nc, s)?;
+        k += h2.checked_sub(h)? as usize;
+    }
+    Some(k)
 }
 
 fn remove_at<T: Clone>(xs: &mut Vec<T>, pos: u64) {
@@ -602,6 +858,51 @@ pub fn run_mmrs(op: &str, a: &[Arg], st: &mut Stats) -> Option<Out> {
             }
             Out::ok(format!("ok:{}", ok)).with_oracle(ok, "bounded completeness check failed on the implementation")
         }
+        // ---- large structured counts: in the parent process the op is handed to a watchdog child
+        ("bgen" | "btamper", _) if !in_guarded_child() => {
+            if let Some(oc) = a.first().and_then(|x| x.u64()) {
+                let m = a.get(2).and_then(|x| x.list()).map(|l| l.len()).unwrap_or(0) as u64;
+                let top = 64 - (oc ^ oc.wrapping_add(m)).leading_zeros();
+                st.hit(&format!("{}:carry reaches bit {}", op, match top { 0 => "none (nothing appended)", 1..=16 => "0-15", 17..=31 => "16-30", 32 => "31", 33 => "32", 34..=48 => "33-47", _ => "48-62" }));
+                st.hit(&format!("{}:appended={}", op, match m { 0 => "0", 1 => "1", 2..=5 => "2-5", _ => "6-64" }));
+            }
+            guarded_out("mmrs", op, a, st, "MmrSuccessorProof::new_from_batch_append / append on init(peaks, count)")
+        }
+        ("bgen", [oc, op_, leafs]) => {
+            let mut out = run_mmrs("gen", a, st)?;
+            let (oc, op_, leafs) = (oc.u64()?, op_.digests()?, leafs.digests()?);
+            let nc = oc.checked_add(leafs.len() as u64)?;
+            if oc.count_ones() as usize == op_.len() {
+                let (old, new, proof) = build(oc, &op_, &leafs);
+                out = out.with_oracle(Some(proof.paths.len()) == spec_proof_len(oc, nc),
+                    format!("proof has {} digests, the specification demands {:?}", proof.paths.len(), spec_proof_len(oc, nc)));
+                let mut r = Rng::new(oc ^ nc.rotate_left(17));
+                // every position for short proofs; for long ones the first/last digests and a sample (a verification costs
+                // as many hashes as the proof is long)
+                let len = proof.paths.len();
+                let mut positions: Vec<usize> = if len <= 40 { (0..len).collect() } else { vec![0, 1, len / 2, len - 2, len - 1] };
+                if len > 40 {
+                    for _ in 0..11 {
+                        positions.push(r.below(len as u64) as usize);
+                    }
+                }
+                for j in positions {
+                    let mut p = proof.clone();
+                    p.paths[j] = if j % 7 == 3 && p.paths[j] != Digest::default() { Digest::default() } else { r.digest_u() };
+                    out = out.with_oracle(!p.verify(&old, &new), format!("proof with digest {} of {} altered is accepted", j, proof.paths.len()));
+                }
+                if !proof.paths.is_empty() {
+                    let mut p = proof.clone();
+                    p.paths.pop();
+                    out = out.with_oracle(!p.verify(&old, &new), "proof without its last digest is accepted");
+                }
+                let mut p = proof.clone();
+                p.paths.push(Digest::default());
+                out = out.with_oracle(!p.verify(&old, &new), "proof with an extra trailing default digest is accepted");
+            }
+            out
+        }
+        ("btamper", [_, _, _, _, _, _]) => run_mmrs("tamper", a, st)?,
         _ => return None,
     })
 }
